@@ -141,6 +141,18 @@ CLAIMS = {
              "first and the last content of each macrostep; TraceC13.tla accepts a run only if the consumed sequence is a merge "
              "of the producers' sequences (each event exactly once, per-sender order) and has the shape (dequeue, begin, end)*.",
         note="The real scheduler is steered, not enumerated; exhaustiveness is at the model level. HTTP producers are covered by C20."),
+    "C15": dict(
+        category="model_checking", design_ref="4/C15",
+        technique="TraceC15.tla: routing function Dest(topology, sender, target form) and delivery predicate evaluated by TLC on recorded multi-session scenarios",
+        text="Topologies of two siblings and of parent + invoked child + sibling, each started through start_fsm and through "
+             "FsmExecutor::execute: every session sends through every applicable target form (#_internal, no target, "
+             "#_scxml_<id> via targetexpr, #_parent, #_<invokeid>) with every payload kind (none, params, namelist, content expr, "
+             "content text); every receiver marks all _event fields and replies to _event.origin / _event.origintype. "
+             "TraceC15.tla computes the addressed queue (Dest) and accepts a scenario only if each send was received exactly "
+             "once, only in that queue, with name, sendid and data unchanged, origintype of the SCXML processor, and the reply "
+             "arrived back at the sender; session ids and generated (idlocation) ids of 16 concurrently started sessions must "
+             "be unique.",
+        note="The executed sends are known from the generated documents; receptions are what content saw in _event."),
     "C18": dict(
         category="fault_enumeration", design_ref="4/C18",
         technique="Rfsm.tla reader/writer protocol model-checked (CutIsError); every cut position and every single write fault of real images validated by TraceC18.tla",
